@@ -1512,7 +1512,9 @@ class IgnoreKwargs(Generic[R], GenerativeFunction[R]):
         return self.wrapped(*args, **kwargs)
 
     def __abstract_call__(self, *args, **kwargs) -> R:
-        return self.wrapped.__abstract_call__(*args, **kwargs)
+        # called with the (args, kwargs) pair, like the GFI methods below
+        (inner_args, _kwargs) = args
+        return self.wrapped.__abstract_call__(*inner_args)
 
     def simulate(
         self,
